@@ -32,6 +32,10 @@
 // one auth.pass_table instance (directly, through SASL exchanges, over parallel
 // connections to a submission endpoint), account management only between the
 // rounds; the sequential reference decides every login (conc_test.go).
+//
+// Group H (7_000_000..): group A histories whose user-name map / credentials
+// table answer chosen lookups with an error (outage of a table back end); an
+// exchange that saw such an answer must not succeed (fault_test.go).
 package c14
 
 import (
@@ -110,6 +114,11 @@ func TestVerif(t *testing.T) {
 	nG := r.N(concQuick, concThorough) * want("G")
 	for i := 0; i < nG; i++ {
 		r.Run(groupG+i, fmt.Sprintf("conc-%d", i), func(c *rep.Case) { runConc(t, r, c, groupG+i) })
+	}
+	// eighth widening: user-name map / credentials table that fail at run time (fault_test.go)
+	nH := r.N(faultQuick, faultThorough) * want("H")
+	for i := 0; i < nH; i++ {
+		r.Run(groupH+i, fmt.Sprintf("faulthist-%d", i), func(c *rep.Case) { runHistoryFault(t, r, c, groupH+i) })
 	}
 }
 
@@ -543,6 +552,7 @@ type env struct {
 	names []string // canonical names in play
 	model *model
 	x     *xenv // third widening (nil in groups A and B)
+	fault *faultCtl // eighth widening, group H (fault_test.go): tables that fail at run time
 }
 
 // auth_map_normalize settings; the documented folding of each is mirrored by
@@ -880,16 +890,112 @@ func playHistory(t *testing.T, r *rep.Reporter, c *rep.Case, idx int, p *prng.R,
 		}
 		var po, lo authObs
 		initial := p.Chance(1, 3)
+		// group H: the tables may fail while this pair runs (fault_test.go)
+		var fa *faultArm
+		byLogin := e.model.accts[canonLogin]
+		verbatimOK := byLogin != nil && byLogin.exists && byLogin.pw == pw // a check of the name as supplied would pass
+		if e.fault != nil {
+			if fa = e.fault.next(expect || verbatimOK, verbatimOK && !mapped); fa != nil {
+				e.fault.arm(fa)
+			}
+		}
+		var fP, fL, fD [2]int // faulted lookups (map, credentials) seen by each exchange
+		exch := func(f *[2]int, run func()) {
+			if fa == nil {
+				run()
+				return
+			}
+			m0, c0 := e.fault.s.faultedSoFar()
+			run()
+			m1, c1 := e.fault.s.faultedSoFar()
+			f[0], f[1] = m1-m0, c1-c0
+		}
 		if p.Bool() {
-			po = runPlain(e.sasl, "", name, pw)
-			lo = runLogin(e.sasl, name, pw, initial)
+			exch(&fP, func() { po = runPlain(e.sasl, "", name, pw) })
+			exch(&fL, func() { lo = runLogin(e.sasl, name, pw, initial) })
 		} else {
-			lo = runLogin(e.sasl, name, pw, initial)
-			po = runPlain(e.sasl, "", name, pw)
+			exch(&fL, func() { lo = runLogin(e.sasl, name, pw, initial) })
+			exch(&fP, func() { po = runPlain(e.sasl, "", name, pw) })
 		}
 		k.authPlain++
 		k.authLogin++
 		ex2 := expect
+		if fa != nil {
+			// the entry point below the mechanisms, under the same fault
+			var derr error
+			exch(&fD, func() { derr = e.sasl.AuthPlain(name, pw) })
+			e.fault.s.disarm()
+			do := authObs{OK: derr == nil}
+			if derr != nil {
+				do.Err = derr.Error()
+			}
+			if fP[0]+fP[1]+fL[0]+fL[1]+fD[0]+fD[1] > 0 {
+				hc := healthyClass(mapped, canonLogin, canonAcct)
+				rel := "other-password"
+				switch {
+				case verbatimOK && !(mapped && canonAcct == canonLogin):
+					rel = "password-of-account-named-like-the-login"
+				case expect:
+					rel = "current-password-of-the-mapped-account"
+				}
+				hist = append(hist, opRec{Op: op + "/tables-failing", Name: name, Canon: canonLogin, Variant: vk, Pw: showPw(pw), PwLen: len(pw), Expect: &ex2, Plain: &po, Login: &lo,
+					Note: fmt.Sprintf("%s; reference with healthy tables: login class %q -> account %q (mapped=%v); fault %+v, two providers=%v; lookups answered with an error (map, credentials): PLAIN %v LOGIN %v direct AuthPlain %v; direct AuthPlain ok=%v err=%q",
+						probe, canonLogin, canonAcct, mapped, *fa, e.fault.twoProv, fP, fL, fD, do.OK, do.Err)})
+				for _, x := range []struct {
+					mech string
+					o    authObs
+					f    [2]int
+				}{{"PLAIN", po, fP}, {"LOGIN", lo, fL}, {"direct-AuthPlain", do, fD}} {
+					if x.f[0]+x.f[1] == 0 {
+						// this exchange saw healthy tables: the reference decides
+						if x.mech != "direct-AuthPlain" {
+							judgeAuth(c, e, x.mech, x.o, expect, canonLogin, canonAcct, mapped, vk, pw, nil, nil, wit)
+						} else if x.o.OK != expect {
+							c.Violation(fmt.Sprintf("auth/direct-AuthPlain-differs-from-reference/expect=%v/map=%s", expect, e.nmap.name()),
+								fmt.Sprintf("SASLAuth.AuthPlain(%q, %q) = %q, reference says success=%v", name, showPw(pw), x.o.Err, expect), wit())
+						}
+						if x.o.OK == expect {
+							k.xc(fmt.Sprintf("fault_exchange_without_faulted_lookup_in_faulted_pair_decided_like_reference/expect=%v", expect), 1)
+						}
+						continue
+					}
+					tbl := "user-name-map"
+					if x.f[0] == 0 {
+						tbl = "credentials-table"
+					}
+					if x.o.OK {
+						c.Violation(fmt.Sprintf("auth/accepted-although-%s-lookup-failed/mech=%s/%s/%s", tbl, x.mech, hc, rel),
+							fmt.Sprintf("%s accepted user %q password %q (identity %q) although a lookup of the %s returned an error during the exchange (fault %+v); with healthy tables: %s, reference success=%v",
+								x.mech, name, showPw(pw), x.o.Identity, tbl, *fa, hc, expect), wit())
+						continue
+					}
+					k.xc("fault_attempt_not_successful_while_"+tbl+"_lookup_fails", 1)
+					k.xc("fault_attempt_not_successful/mech="+x.mech, 1)
+					k.xc("fault_attempt_not_successful/mode="+fa.Mode, 1)
+					k.xc("fault_attempt_not_successful/error="+fa.ErrKind, 1)
+					if fa.Partial {
+						k.xc("fault_attempt_not_successful/value-returned-with-error", 1)
+					}
+					if e.fault.twoProv {
+						k.xc("fault_attempt_not_successful/two-providers", 1)
+					}
+					if x.f[0] > 0 {
+						if rel != "other-password" {
+							// a fallback to the name as supplied would have been accepted
+							k.xc("fault_map_outage/"+hc+"/"+rel, 1)
+						}
+						k.xc("fault_map_outage/map="+e.nmap.name(), 1)
+					} else if expect {
+						k.xc("fault_credentials_outage/current-password", 1)
+					}
+				}
+				nontrivial = true
+				shape[fmt.Sprintf("%s/%s/fault=%s-%s-%s/%s/%s", op, vk, fa.Target, fa.Mode, fa.ErrKind, hc, rel)] = true
+				r.Distinct("fault_situations", fmt.Sprintf("map=%s table=%s mode=%s err=%s partial=%v twoprov=%v %s %s", e.nmap.name(), fa.Target, fa.Mode, fa.ErrKind, fa.Partial, e.fault.twoProv, hc, rel))
+				return pairRes{expect, mapped, canonAcct, a}
+			}
+			k.xc("fault_armed_but_no_lookup_reached", 1)
+		}
 		hist = append(hist, opRec{Op: op, Name: name, Canon: canonLogin, Variant: vk, Pw: showPw(pw), PwLen: len(pw), Expect: &ex2, Plain: &po, Login: &lo,
 			Note: fmt.Sprintf("%s; reference: login class %q -> account %q (mapped=%v)", probe, canonLogin, canonAcct, mapped)})
 		judgeAuth(c, e, "PLAIN", po, expect, canonLogin, canonAcct, mapped, vk, pw, &lo.OK,
@@ -904,6 +1010,15 @@ func playHistory(t *testing.T, r *rep.Reporter, c *rep.Case, idx int, p *prng.R,
 				fmt.Sprintf("same credentials (user %q): PLAIN reports identity %q, LOGIN %q", name, po.Identity, lo.Identity), wit())
 		}
 		if po.OK == expect && lo.OK == expect {
+			if e.fault != nil {
+				if m, cr := e.fault.s.faultedSoFar(); m+cr > 0 {
+					// healthy again (or this pair was not hit): same decisions as ever
+					k.xc(fmt.Sprintf("fault_pair_with_healthy_tables_after_an_outage_decided_like_reference/expect=%v", expect), 1)
+					if !mapped {
+						k.xc("fault_unmapped_name_refused_with_healthy_tables_after_an_outage", 1)
+					}
+				}
+			}
 			if expect {
 				k.authOK += 2
 				nontrivial = true
